@@ -169,6 +169,14 @@ theorem text_determines_expression (e₁ e₂ : Expr)
   rw [hr₁] at hr₂
   exact Option.some.inj hr₂
 
+/-- `nameSafe` holds for every plain reference text: non-empty, only word characters (no operator, bracket,
+    separator or quote character), at least one character that is not a digit or `.` (a column letter, `$`, `:`),
+    not TRUE / FALSE — i.e. every A1-style reference, range, row / column range and `Table::` prefix made of
+    such characters. -/
+theorem a1_references_nameSafe (t : Text) (hne : t ≠ []) (hp : ∀ c ∈ t, Parse.isDelim c = false ∧ c ≠ '\'')
+    (hnd : ∃ c ∈ t, isAsciiDigit c = false ∧ c ≠ '.') (h1 : t ≠ "TRUE".toList) (h2 : t ≠ "FALSE".toList) :
+    Parse.nameSafe t = true := Parse.nameSafe_plain t hne hp hnd h1 h2
+
 /-- every function name of the generated FUNCTION_MAP (and `UNDEFINED!`) is one word for the lexer. -/
 theorem function_names_lex (f : Nat) : Parse.wordOK (funcName f) = true := Parse.wordOK_funcName f
 
